@@ -14,6 +14,13 @@
 
 SMOOTH_BEGIN_NAMESPACE
 
+#ifdef SMOOTH_VERIF
+namespace verif {
+// conformance harnesses read the per-segment representation through this probe
+struct SplineProbe;
+}  // namespace verif
+#endif
+
 /**
  * @brief Single-parameter Lie group-valued function.
  *
@@ -242,6 +249,10 @@ public:
   [[nodiscard]] Spline crop(double ta, double tb = std::numeric_limits<double>::infinity(), bool localize = true) const;
 
 private:
+#ifdef SMOOTH_VERIF
+  friend struct verif::SplineProbe;
+#endif
+
   std::size_t find_idx(double t) const;
 
   // segment i is defined by
